@@ -12,7 +12,7 @@ ENTRY = {
             "w.std: the value the reference decodes from proto.Marshal(&v) vs v (model: spec_decode std o Model.Marshal); "
             "w.dec: proto.Unmarshal vs the reference on the reference's own encodings (with and without explicitly written zero values), on the package's encoding, and on legal re-encodings built from them at the record level "
             "(stable shuffle of fields at every nesting level, varints of tags/lengths/values padded up to 10 bytes, singular embedded messages split into 2-3 occurrences incl. inside repeated elements and map values, "
-            "singular scalars preceded by 1-2 occurrences with arbitrary values, unknown fields of every wire type); the harness first checks that the reference reads each re-encoding as the original value (w.bug otherwise); "
+            "singular scalars preceded by 1-2 occurrences with arbitrary values, unknown fields of every wire type, singular non-pointer scalar fields that hold their default left out -- map entries without key or value included); the harness first checks that the reference reads each re-encoding as the original value (w.bug otherwise); "
             "model: Model.Unmarshal and spec_decode std, and inside the driver the claim of theorem (b1) on this input: spec_decode pkgd accepted => same value as Model.Unmarshal (DIALECT-MISMATCH marker); "
             "o.dec: mutated encodings, reference vs spec_decode std only (ties the transcription to the reference; inputs with group wire types are skipped, reference panics are recorded as o.refpanic without verdict); "
             "w.type: proto.TypeOf vs the expected .proto shape. Case-name suffixes name input classes decided from the input alone (known findings): .zzrep (repeated field tagged zigzag/fixed32/fixed64), "
